@@ -65,7 +65,9 @@ func (n *node) depth() int {
 }
 
 // rewrite is the reference rewriter: path -> import name, target path dropped.
-func (n *node) rewrite(names map[string]string) string {
+func (n *node) rewrite(names map[string]string) string { return n.rewriteFor(target, names) }
+
+func (n *node) rewriteFor(target string, names map[string]string) string {
 	var b strings.Builder
 	if n.path != "" && n.path != target {
 		b.WriteString(names[n.path])
@@ -78,19 +80,21 @@ func (n *node) rewrite(names map[string]string) string {
 			if i > 0 {
 				b.WriteByte(',')
 			}
-			b.WriteString(a.rewrite(names))
+			b.WriteString(a.rewriteFor(target, names))
 		}
 		b.WriteByte(']')
 	}
 	return b.String()
 }
 
-func (n *node) paths(set map[string]bool) {
+func (n *node) paths(set map[string]bool) { n.pathsFor(target, set) }
+
+func (n *node) pathsFor(target string, set map[string]bool) {
 	if n.path != "" && n.path != target {
 		set[n.path] = true
 	}
 	for _, a := range n.args {
-		a.paths(set)
+		a.pathsFor(target, set)
 	}
 }
 
@@ -238,6 +242,37 @@ func checkRef(c *core.Ctx, n *node) {
 	}
 	if got != want {
 		c.Fail(class, cs, "ID(%q) rendered %q, want %q", s, got, want)
+	}
+
+	// (4) history: the same reference rendered again by a fresh namer for ANOTHER target package,
+	// and parsed again, must not be influenced by the first rendering
+	const target2 = "x.io/p"
+	buf2 := bytes.NewBuffer(nil)
+	tk2 := namer.NewDefaultImportTracker()
+	w2 := gengo.NewSnippetWriter(buf2, namer.NameSystems{"raw": namer.NewRawNamer(target2, tk2)})
+	if p := try(func() { w2.Render(snippet.ID(s)) }); p != nil {
+		c.Fail("", cs, "second rendering of ID(%q) (target %s) panicked: %v", s, target2, p)
+		return
+	}
+	want2Paths := map[string]bool{}
+	n.pathsFor(target2, want2Paths)
+	imports2 := tk2.Imports()
+	var g2, w2p []string
+	for p := range imports2 {
+		g2 = append(g2, p)
+	}
+	for p := range want2Paths {
+		w2p = append(w2p, p)
+	}
+	sort.Strings(g2)
+	sort.Strings(w2p)
+	if fmt.Sprint(g2) != fmt.Sprint(w2p) {
+		c.Fail("", cs, "after a first rendering for %s, ID(%q) rendered for %s registered %v, want exactly %v (rendered %q)", target, s, target2, g2, w2p, buf2.String())
+	} else if want2 := n.rewriteFor(target2, imports2); buf2.String() != want2 {
+		c.Fail("", cs, "after a first rendering for %s, ID(%q) rendered for %s gives %q, want %q", target, s, target2, buf2.String(), want2)
+	}
+	if tr2, err := gengotypes.ParseTypeRef(s); err != nil || tr2.String() != s {
+		c.Fail("", cs, "after rendering, ParseTypeRef(%q) no longer round-trips: %v %v", s, tr2, err)
 	}
 }
 
